@@ -3,6 +3,7 @@ package h
 // Common harness R: one packet through the real middleware (DESIGN.md §3 "Common harness R").
 
 import (
+	"github.com/cosmos/cosmos-sdk/types/bech32"
 	warptypes "github.com/bcp-innovations/hyperlane-cosmos/x/warp/types"
 	"strings"
 
@@ -26,6 +27,7 @@ const (
 	rcvEmpty
 	rcvGarbage
 	rcvSymbolic // an arbitrary string (see verif.KnownAddress)
+	rcvForeign  // the orbiter account's BYTES under another chain's prefix: valid bech32, but not an address on this chain
 	nRcvKinds
 )
 
@@ -94,6 +96,12 @@ type Scenario struct {
 
 func orbiterUpper() string { return strings.ToUpper(core.ModuleAddress.String()) }
 
+func orbiterForeign() string {
+	x, err := bech32.ConvertAndEncode("cosmos", core.ModuleAddress)
+	must(err)
+	return x
+}
+
 func orbiterMixed() string {
 	s := core.ModuleAddress.String()
 	return s[:len(s)-3] + strings.ToUpper(s[len(s)-3:])
@@ -119,11 +127,14 @@ func drawScenario() *Scenario {
 		s.receiver = ""
 	case rcvGarbage:
 		s.receiver = "noble1notanaddress"
+	case rcvForeign:
+		s.receiver = orbiterForeign()
 	case rcvSymbolic:
 		s.receiver = verif.String("receiver", 48)
 	}
 	s.denomKind = verif.Choose("denom-kind", verif.Bound("denomKinds"))
-	s.denom = []string{voucherOnSender, "uatom", "transfer/channel-7/transfer/channel-3/uatom", "transfer/channel-8/uusdc"}[s.denomKind]
+	// (kind 4: ANOTHER Noble-native denomination returning home — the account may hold uusdc besides it)
+	s.denom = []string{voucherOnSender, "uatom", "transfer/channel-7/transfer/channel-3/uatom", "transfer/channel-8/uusdc", "transfer/channel-7/ueure"}[s.denomKind]
 	if verif.Bound("amountKinds") > 1 && verif.Bool("amount-not-a-number") {
 		s.amountNaN = true
 	} else {
@@ -252,6 +263,7 @@ func (s *Scenario) apply(w *World, withPriors bool) {
 	w.Earlier(s.earlier)
 	w.L.Set(escrow, nativeDenom, s.escrowBal)
 	w.L.Set(escrow, "ibc/HASH", s.escrowBal)
+	w.L.Set(escrow, "ueure", s.escrowBal)
 	if withPriors {
 		w.L.Set(core.ModuleAddress, nativeDenom, s.priorD)
 		w.L.Set(core.ModuleAddress, "uother", s.priorO)
@@ -296,7 +308,7 @@ func (s *Scenario) toOrbiter() bool {
 }
 
 // tracked accounts and denoms of the ledger assertions
-var trackedDenoms = []string{nativeDenom, "uother", "ibc/HASH", "ibc/VOUCHER"}
+var trackedDenoms = []string{nativeDenom, "uother", "ibc/HASH", "ibc/VOUCHER", "ueure"}
 
 func trackedAccounts() []sdk.AccAddress {
 	return []sdk.AccAddress{core.ModuleAddress, modAddr(core.DustCollectorName), user1, user2, feeR1, feeR2, escrow, cctpModuleAddr, warpModuleAddr, transferModuleAddr}
